@@ -69,8 +69,9 @@ class C04(Check):
         # the golden-pinned aliasing of two instances of one subprogram class
         return [{"main": {"locals": [("a0", "I")], "arrays": []}, "classes": [{"locals": [("l0", "I")], "arrays": []}], "insts": [0, 0],
                  "init": {"main.a0": 5, "s0.l0": 3, "s1.l0": 7}, "stmts": [["setc", "s0", "l0", 9]]},
-                {"kind": "dict", "items": [["L", "l0", "I"], ["D", "t1", ["Q"], ["I"]], ["H", "h2", "q"]],
-                 "order": [["L", "l0"], ["K", "t1", 0], ["V", "t1", 0], ["H", "h2"]], "vals": {"l0": 0x11111111, "t1.k0": 5, "t1.v0": 77, "h2": -9}, "update": True},
+                {"kind": "dict", "items": [["L", "l0", "I"], ["D", "t1", ["Q"], ["I"]], ["H", "h2", "q", 0], ["H", "h3", "I", 1], ["H", "h4", "I", 0], ["H", "h5", "B", 1]],
+                 "order": [["L", "l0"], ["H", "h3"], ["K", "t1", 0], ["H", "h5"], ["V", "t1", 0], ["H", "h2"], ["H", "h4"]],
+                 "vals": {"l0": 0x11111111, "t1.k0": 5, "t1.v0": 77, "h2": -9, "h3": 1000, "h4": 3, "h5": 9}, "update": True},
                 {"kind": "dict", "items": [["D", "t0", ["I"], ["I"]]], "order": [["V", "t0", 0], ["K", "t0", 0]], "vals": {"t0.k0": 5, "t0.v0": 77}, "update": True}]
 
     def build(self, case):
@@ -312,7 +313,7 @@ class C04(Check):
         return ("main program with 1-5 locals and 0-4 array-map variables of formats BHIQbhiqx, 0-2 subprogram classes (0-3 locals, 0-2 array variables) with 1-2 "
                 "instances (possibly of the same class); all variables preset with distinct values; 1-4 statements writing a constant or an expression of "
                 "another variable; afterwards every variable must hold its last written or its initial value; a further third of that number: programs declaring 1-2 Dict "
-                "structures (1-3 key and value members) between 0-4 locals and hash-map variables in random declaration order, every local, member and hash variable "
+                "structures (1-3 key and value members) between 0-4 locals and hash-map variables (of two hash maps) in random declaration order, every local, member and hash variable "
                 "written once in random order, optionally update(): every one must hold its value at the end and the map entry must be key -> value")
 
     def distribution(self, cases, observed):
@@ -355,7 +356,7 @@ def dict_case(rng):
         if kind == "L":
             items.append(["L", f"l{k}", rng.choice(DFMTS)])
         elif kind == "H":
-            items.append(["H", f"h{k}", rng.choice(DFMTS + ["x"])])
+            items.append(["H", f"h{k}", rng.choice(DFMTS + ["x"]), rng.randrange(2)])      # which of two hash maps declares it
         else:
             items.append(["D", f"t{k}", members(), members()])
     targets, vals = [], {}
@@ -384,15 +385,15 @@ def dict_build(case):
     sim = sim_bpf.BpfSim()
     res = {"sim": sim}
     with sim_bpf.installed(sim):
-        ns, hm, structs = {}, None, {}
+        ns, hms, structs = {}, {}, {}
         for it in case["items"]:
             if it[0] == "L":
                 ns[it[1]] = LocalVar(it[2])
             elif it[0] == "H":
-                if hm is None:
-                    hm = HashMap()
-                    ns["hm"] = hm
-                ns[it[1]] = hm.globalVar(it[2], default=0)
+                m = it[3] if len(it) > 3 else 0
+                if m not in hms:
+                    hms[m] = ns[f"hm{m}"] = HashMap()
+                ns[it[1]] = hms[m].globalVar(it[2], default=0)
             else:
                 Key = type("Key", (Structure,), {f"k{i}": Member(f) for i, f in enumerate(it[2])})
                 Value = type("Value", (Structure,), {f"v{i}": Member(f) for i, f in enumerate(it[3])})
